@@ -22,7 +22,7 @@ smallest case, `(3, 6, 6)`).  The rank clause is therefore stated for instances 
 (`Properties/C01.lean`, `valid_HollowRhombicCode_partial`: every size of the family with
 `L_i ≤ 4`), not for all sizes.
 -/
-import PanqecVerif.Proofs.LatHollowRhombicCodeE
+import PanqecVerif.Proofs.LatHollowRhombicCodeDef
 
 namespace Panqec.C01HollowRhombicCode
 open Panqec.HollowRhombicCode Panqec.Color
@@ -161,6 +161,32 @@ theorem qubitAxis_rule (Lx Ly Lz : Nat) (x y z : Int) (h : [x, y, z] ∈ (lattic
     rw [Cubic3D.qubitAxis_y h1 h2 h3, if_neg (by omega), if_pos h2]
   · show Cubic3D.qubitAxis [x, y, z] = _
     rw [Cubic3D.qubitAxis_z h1 h2 h3, if_neg (by omega), if_neg (by omega)]
+
+
+/-- NEGATIVE RESULT (kernel-checked, recorded known finding): `HollowRhombicCode(3, 6, 6)` — inside
+    the supported family — is NOT a valid `[[224, 1]]` code.  Commutation and pairing hold (`commPair`),
+    but the lattice carries a second, undeclared logical pair (`X2keys`, weight 10; `Z2keys`, weight 6:
+    they commute with all 277 generators and with the declared sheet and line, and anticommute with
+    each other — `second_logical_pair`), so that every independent family of generators has at most
+    `n − 2 = 222` members: the rank clause `rank = n − k = 223` fails.  The matrices are the ones the
+    generic code model assembles from the lattice model (the same objects as in the `valid_code`
+    theorems of the other classes). -/
+theorem thin_hole_rank_deficient :
+    (lattice 3 6 6).toCodeData.n = 224 ∧ (lattice 3 6 6).toCodeData.k = 1 ∧
+    stabilizerMatrix (lattice 3 6 6).toCodeData = some (lattice 3 6 6).rowsH ∧
+    (∀ r, HasRank (2 * 224) (lattice 3 6 6).rowsH r → r ≤ 222) ∧
+    ¬ ValidCodeL 224 1 (lattice 3 6 6).rowsH (lattice 3 6 6).rowsX (lattice 3 6 6).rowsZ := by
+  refine ⟨n_366, rfl, Lattice.stabilizerMatrix_eq (wf 3 6 6 (by decide)), rank_le_366, ?_⟩
+  intro h
+  have := rank_le_366 _ h.rank
+  omega
+
+/-- the second logical pair of `HollowRhombicCode(3, 6, 6)`: the lattice with `X2`, `Z2` added to the
+    declared logical operators is well formed and satisfies every commutation / pairing clause with
+    `k = 2` -/
+theorem second_logical_pair : lat2.WF ∧ lat2.CommPair ∧ lat2.logX.length = 2 ∧
+    lat2.stabs = (lattice 3 6 6).stabs ∧ lat2.qubits = (lattice 3 6 6).qubits :=
+  ⟨lat2_wf, lat2_commPair, by rw [lat2_logX]; rfl, rfl, rfl⟩
 
 /-! ### non-vacuity -/
 
